@@ -235,6 +235,7 @@ func mkConfig(t *TierCfg, tier string, workers int) *Config {
 		cfg.TimeoutMs = 60000
 		cfg.MaxPaths = 4000000
 		cfg.Validate = 12
+		cfg.DeadlineSec = 1500 // a thorough harness that does not finish is reported, never truncated silently
 	}
 	if t.Unwind > 0 {
 		cfg.Unwind = t.Unwind
